@@ -1,6 +1,6 @@
 """C18 — the B+tree index is a persistent ordered map (thin structural clause set)."""
 from ..registry import rule
-from ..core import origin_of_operand, AnchorMissing, const_eval, feasible_reach
+from ..core import origin_of_operand, AnchorMissing, const_eval, feasible_reach, mirror
 from .common import *
 
 EXPLANATION = ("A deliberately thin set of structural necessary conditions for the B+tree: every mutation of the persistent header "
@@ -270,3 +270,96 @@ def r3(cx):
     cx.check(all(a[1] <= b[0] for a, b in zip(spans, spans[1:])), "encoded header fields do not overlap", "header-overlap", sb.where())
     wb = f.body("BPlusTree::write_header")
     cx.check(f.may_reach(wb.id, "bplustree::tree::Header::serialize"), "write_header serialises the in-memory header", "write_header-source", wb.where())
+
+
+def _additive_const(f, b, op, depth=0):
+    """if `op` is (const + x) or (x + const) through at most a few moves, the constant; 0 if it is a plain value; None if
+    the shape is anything else"""
+    if op[0] not in ("c", "m") or depth > 6:
+        return 0 if op[0] in ("c", "m") else None
+    pl = op[1]
+    ds = b.defs().get(pl[0], [])
+    ds = [d for d in ds if d[0] == "assign"]
+    if len(ds) != 1:
+        return 0
+    rv = ds[0][3]
+    if rv[0] == "use":
+        return _additive_const(f, b, rv[1], depth + 1)
+    if rv[0] == "cast":
+        return _additive_const(f, b, rv[2], depth + 1)
+    if rv[0] == "bin" and rv[1].startswith("Add"):
+        a, c = const_eval(f, b, rv[2]), const_eval(f, b, rv[3])
+        if a is not None and c is None:
+            return a
+        if c is not None and a is None:
+            return c
+        return None
+    if rv[0] == "bin":
+        return None
+    return 0
+
+
+@rule("C18", "C18.R5", "overflow pages: the reader accepts every payload length the writer can produce")
+def r5(cx):
+    """Entries larger than a page are spilled into a chain of overflow pages; every page of a chain except the last is
+    filled to capacity, and SQLite-style sizing makes full last pages common.  Decided with constants folded: the largest
+    `data_len` that OverflowPage::deserialize accepts (from its rejection comparison) is >= OverflowPage::max_data_size(),
+    the chunk size the writer cuts payloads into; and the reader never slices past the page."""
+    from ..core import comparisons
+    f = cx.f
+    db = f.body("OverflowPage::deserialize")
+    mb = f.body("OverflowPage::max_data_size")
+    PAGE = f.const("bplustree::tree::PAGE_SIZE") if True else 4096
+    # writer side: max_data_size() is a constant expression
+    wmax = None
+    for i, j, lhs, rv, line in mb.assigns():
+        if lhs == [0]:
+            ops = [const_eval(f, mb, op) for op in ([rv[1]] if rv[0] == "use" else [rv[2], rv[3]] if rv[0] == "bin" else [])]
+            if rv[0] == "use" and ops[0] is not None:
+                wmax = ops[0]
+            elif rv[0] == "bin" and None not in ops and rv[1].startswith("Sub"):
+                wmax = ops[0] - ops[1]
+    if wmax is None:
+        for i, j, lhs, rv, line in mb.assigns():
+            if rv[0] == "bin" and rv[1].startswith("Sub"):
+                a, b_ = const_eval(f, mb, rv[2]), const_eval(f, mb, rv[3])
+                if a is not None and b_ is not None:
+                    wmax = a - b_
+    if wmax is None:
+        raise AnchorMissing("OverflowPage::max_data_size is not a constant expression")
+    cx.note("writer: overflow chunk size = %d" % wmax)
+    oks = [x for x, k in exits(db) if k in ("ok", "tail")]
+    n = 0
+    for cm in comparisons(db):
+        for lenop, kop, flip in ((cm.lhs, cm.rhs, False), (cm.rhs, cm.lhs, True)):
+            lo = origin_of_operand(db, lenop)
+            if not (any(x.primary.endswith("from_be_bytes") or x.primary.endswith("read_u32_be") for x in lo.calls)):
+                continue
+            K = const_eval(f, db, kop)
+            if K is None:
+                continue
+            # additive offset on the length side (header + data_len)
+            H = _additive_const(f, db, lenop) if lo.ops else 0
+            if H is None:
+                continue
+            if any(o for o in lo.ops if not o.startswith("Add")):
+                continue
+            for sw, e in cm.switches():
+                acc = set()
+                for tgt, lab in e.items():
+                    lab2 = mirror(lab) if flip else lab
+                    r = db.reachable_from([tgt])
+                    if any(o in r for o in oks):
+                        acc |= set(lab2)
+                if not acc or acc == {"lt", "eq", "gt"}:
+                    continue
+                n += 1
+                # accepted: (H + len) REL K for REL in acc
+                if "gt" in acc:
+                    continue  # no upper limit from this test
+                rmax = (K - H) if "eq" in acc else (K - H - 1)
+                cx.check(rmax >= wmax, "reader accepts data_len up to %d, writer produces chunks of up to %d" % (rmax, wmax), "overflow-len-boundary", cm.where(),
+                         "OverflowPage::deserialize rejects data_len > %d but the writer fills overflow pages with up to %d bytes: a page that is exactly full cannot be read "
+                         "back once the node cache is cold (after close + reopen every entry whose spilled part ends on a page boundary, and every multi-page chain, is lost)" % (rmax, wmax))
+                cx.check(rmax + (H if H else 13) <= PAGE, "the accepted length keeps the payload inside the page", "overflow-len-too-lax", cm.where())
+    cx.floor("length validations in OverflowPage::deserialize", n, 1)
